@@ -71,7 +71,7 @@ def filters() -> list[tuple[bool, ...]]:
     return list(itertools.product((False, True), repeat=5))
 
 
-SECURE_CONFIGS = ["none", "credentials", "keyring-host-match", "keyring-host-mismatch", "keyring-host-match+credentials"]
+SECURE_CONFIGS = ["none", "credentials", "keyring-host-match", "keyring-host-mismatch", "keyring-host-match+credentials", "keyring-ia-of-this-host", "keyring-ia-of-other-host", "keyring-ia-unknown"]
 
 
 def keyring_for(host: str) -> Keyring:
@@ -96,6 +96,10 @@ def secure_config(kind: str) -> SecureConfig | None:
     if kind == "keyring-host-match":
         return SecureConfig(keyring=keyring_for("1.0.1"))
     if kind == "keyring-host-mismatch":
+        return SecureConfig(keyring=keyring_for("9.9.9"))
+    if kind == "keyring-ia-of-this-host":
+        return SecureConfig(keyring=keyring_for("1.0.1"))
+    if kind in ("keyring-ia-of-other-host", "keyring-ia-unknown"):
         return SecureConfig(keyring=keyring_for("9.9.9"))
     return SecureConfig(keyring=keyring_for("1.0.1"), user_id=2, user_password="pw", device_authentication_password="auth")
 
@@ -139,7 +143,8 @@ def run_case(gws: tuple[int, ...], flt: tuple[bool, ...], sc: str, fail_first: b
         xknx = XKNX()
         try:
             f = GatewayScanFilter(tunnelling=flt[0], tunnelling_tcp=flt[1], routing=flt[2], secure_tunnelling=flt[3], secure_routing=flt[4])
-            cfg = ConnectionConfig(connection_type=ConnectionType.AUTOMATIC, local_ip="192.168.1.5", scan_filter=f, secure_config=secure_config(sc))
+            ia = {"keyring-ia-of-this-host": "1.0.240", "keyring-ia-of-other-host": "1.0.240", "keyring-ia-unknown": "1.0.99"}.get(sc)
+            cfg = ConnectionConfig(connection_type=ConnectionType.AUTOMATIC, local_ip="192.168.1.5", scan_filter=f, secure_config=secure_config(sc), individual_address=ia)
             iface = RecordingInterface(xknx, cfg)
             iface.calls = []
             iface.fail = set()
@@ -200,9 +205,9 @@ def run_case(gws: tuple[int, ...], flt: tuple[bool, ...], sc: str, fail_first: b
                     if not (g["secured"] and T in g["secured"]):
                         viols.append(("secure-tunnel-to-gateway-not-announcing-it", ctxs))
             # the keyring host filter: nothing is opened to a gateway whose address the keyring does not list
-            if sc == "keyring-host-mismatch" and iface.calls:
+            if sc in ("keyring-host-mismatch", "keyring-ia-of-other-host", "keyring-ia-unknown") and iface.calls:
                 viols.append(("connection-to-gateway-outside-keyring", ctxs))
-            if sc.startswith("keyring-host-match"):
+            if sc.startswith("keyring-host-match") or sc == "keyring-ia-of-this-host":
                 for kind, ip in iface.calls:
                     if ip is not None and ip != ips[0]:
                         viols.append(("connection-to-gateway-outside-keyring", ctxs))
@@ -317,8 +322,8 @@ def run(ctx: Ctx) -> None:
     ctx.rule = (
         f"(a) the real KNXIPInterface.start() in automatic mode (the five connection starters replaced by recorders in a subclass; GatewayScanner, UDP transport, frame parsing, parse_dibs, scan filter and "
         f"_start_automatic are the real code) on the virtual loop against simulated gateways: ALL {ng} capability announcements (core 1/2 x tunnelling absent/v1/v2 x routing x security family x secured-families DIB "
-        "absent/empty/tunnelling/routing/both x both DIB orders x answer mode plain/extended/both in either order) x ALL 32 scan-filter flag sets x 5 secure configurations (none, credentials, keyring listing "
-        "the gateway, keyring listing another host, keyring + credentials); pairs of gateways with the first unreachable or not. Oracle: no plain tunnel (UDP/TCP) to a gateway whose secured-families DIB lists "
+        "absent/empty/tunnelling/routing/both x both DIB orders x answer mode plain/extended/both in either order) x ALL 32 scan-filter flag sets x 8 secure configurations (none, credentials, keyring listing "
+        "the gateway, keyring listing another host, keyring + credentials, keyring + a tunnel address of this / another / no host); pairs of gateways with the first unreachable or not. Oracle: no plain tunnel (UDP/TCP) to a gateway whose secured-families DIB lists "
         "tunnelling, no plain routing when every router lists routing as secured, nothing outside the keyring's hosts, nothing the filter excludes. (b) GatewayScanFilter.match = the statement's predicate on the "
         "descriptors parsed from all those announcements x 32 filters x name filter."
     )
